@@ -300,6 +300,8 @@ fn page_op_s<S: PageSize>(a: u64, n: u64, which: u32) -> Res {
             q += n;
             q.start_address()
         }),
+        6 => r_va(|| Step::forward(p, n as usize).start_address()),
+        7 => r_va(|| Step::backward(p, n as usize).start_address()),
         _ => r_va(|| {
             let mut q = p;
             q -= n;
@@ -616,10 +618,15 @@ fn step_events(out: &mut Out, a: u64, b: u64, n: u64) {
         &r_opt(|| Step::backward_checked(v, n as usize).map(|x| x.as_u64())),
     ));
     steps_between_ev(out, "va_steps_between", a, b, 0, catch(|| Step::steps_between(&v, &w)));
+    // the unchecked entry points (what `(x..)` iteration uses): the same position when it exists
+    out.emit(ev2("va_step_fwd_u", a, n, 0, &r_va(|| Step::forward(v, n as usize))));
+    out.emit(ev2("va_step_back_u", a, n, 0, &r_va(|| Step::backward(v, n as usize))));
     for s in 0..3u64 {
         let (pa_, pb_) = (page_start(s, a), page_start(s, b));
         out.emit(ev2("pg_step_fwd", pa_, n, s as i64, &page_op(s, a, n, 2)));
         out.emit(ev2("pg_step_back", pa_, n, s as i64, &page_op(s, a, n, 3)));
+        out.emit(ev2("pg_step_fwd_u", pa_, n, s as i64, &page_op(s, a, n, 6)));
+        out.emit(ev2("pg_step_back_u", pa_, n, s as i64, &page_op(s, a, n, 7)));
         let sb = match s {
             0 => catch(|| Step::steps_between(&mkpage::<Size4KiB>(pa_), &mkpage::<Size4KiB>(pb_))),
             1 => catch(|| Step::steps_between(&mkpage::<Size2MiB>(pa_), &mkpage::<Size2MiB>(pb_))),
@@ -645,6 +652,8 @@ fn idx_step_events(out: &mut Out, i: u16, j: u16, n: u64) {
         0,
         &r_opt(|| Step::backward_checked(x, n as usize).map(u64::from)),
     ));
+    out.emit(ev2("idx_step_fwd_u", i as u64, n, 0, &r_u64(|| u64::from(Step::forward(x, n as usize)))));
+    out.emit(ev2("idx_step_back_u", i as u64, n, 0, &r_u64(|| u64::from(Step::backward(x, n as usize)))));
     steps_between_ev(
         out,
         "idx_steps_between",
